@@ -310,6 +310,12 @@ class ProgGen:
             name = "g"
         if name in self.macros or name in self.used:
             name = "g"
+        if not self.p.get("native") and rng.random() < 0.08:
+            # a plain gate that carries a name other programs give to a macro
+            c = [n for n in MACRO_NAMES[:5] if n not in self.macros and (n not in self.used or n in self.anon_arity)]
+            if c:
+                name = rng.choice(c)
+                self.used.add(name)
         if name not in self.anon_arity:
             self.anon_arity[name] = rng.choice([0, 1, 1, 2, 2, 3])
         args = tuple(self.anon_arg(params) for _ in range(self.anon_arity[name]))
@@ -345,7 +351,15 @@ class ProgGen:
             name = rng.choice(list(params))
             role = params[name]
             if role == "reg":
-                return ("array_item", name, rng.randrange(getattr(self, "_regmin", 1)))
+                i = rng.randrange(getattr(self, "_regmin", 1))
+                # the index into a register *parameter* may itself be a let (or another parameter used as index)
+                idx = self.ioi(i, self.p["p_let_index"])
+                if isinstance(idx, str) and idx in params:
+                    idx = i
+                own = [n for n, r in params.items() if r == "idx"]
+                if own and rng.random() < 0.2:
+                    idx = rng.choice(own)
+                return ("array_item", name, idx)
             if role == "idx" and self.elems:
                 c = [n for n in self.elems if n not in params]
                 if c:
